@@ -139,3 +139,146 @@ func TestC20MeasureSeesCapacity(t *testing.T) {
 		}
 	}
 }
+
+// ---- snapshot histories (c20_snap.go) ----
+
+// Case(x).Block(a()) cloned, the clone cloned: all render `case x: \na ()`; hand-made outputs in
+// which a clone gets the braces back (what happens when the Block no longer finds the Case as
+// its previous item) are rejected, alone and inside a switch, also when the original is wrong
+// in the same way.
+func TestC20SnapCaseClauseOracle(t *testing.T) {
+	clause := []c20sItem{
+		{Group: "Case", Kids: []c20sKid{{Ref: -1, Item: c20Item{Node: term.S(term.Id("x")), Text: "x"}}}},
+		{Group: "Block", Kids: []c20sKid{{Ref: -1, Item: c20Item{Node: term.S(term.Id("a"), term.G("Call")), Text: "a ()"}}}},
+	}
+	ops := []c20sOp{{Kind: "new", V: 0}, {Kind: "append", V: 0, Items: clause}, {Kind: "clone", V: 1, From: 0}, {Kind: "clone", V: 2, From: 1},
+		{Kind: "render", V: 0}, {Kind: "render", V: 1}, {Kind: "render", V: 2},
+		{Kind: "renderin", Vars: []int{0}}, {Kind: "renderin", Vars: []int{1}}, {Kind: "renderin", Vars: []int{2}}, {Kind: "renderin", Vars: []int{0, 1, 2}}}
+	c := c20sCase(ops, "test", nil)
+	got := ExecFresh(c.Hist)
+	if v := (c20{}).Oracle(c, got); v != "" {
+		t.Fatalf("rejected on the implementation: %s", v)
+	}
+	if got[0].Kind != "fmterr" || got[0].Out != "case x: \na ()" || got[3].Out != "switch {\ncase x:\n\ta()\n}" {
+		t.Fatalf("unexpected outputs %v", got[:4])
+	}
+	has := func(tag string) bool {
+		for _, x := range c.Tags {
+			if x == tag {
+				return true
+			}
+		}
+		return false
+	}
+	if !has("unmodified-clone-depth=2") || !has("unmodified-clone-in-switch") || !c.NonTrivial {
+		t.Errorf("tags %v nontrivial %v", c.Tags, c.NonTrivial)
+	}
+	braces := "case x: {\na ()\n}"
+	for _, k := range []int{1, 2} {
+		bad := append([]hist.Obs{}, got...)
+		bad[k].Out = braces
+		if v := (c20{}).Oracle(c, bad); v == "" {
+			t.Errorf("clone %d rendered alone with braces: accepted", k)
+		}
+		bad = append([]hist.Obs{}, got...)
+		bad[3+k].Out = "switch {\ncase x:\n\t{\n\t\ta()\n\t}\n}"
+		if v := (c20{}).Oracle(c, bad); v == "" {
+			t.Errorf("clone %d rendered in a switch with braces: accepted", k)
+		}
+	}
+	bad := append([]hist.Obs{}, got...)
+	for k := 0; k < 3; k++ {
+		bad[k].Out = braces // all three alike, but not what a case clause is
+	}
+	if v := (c20{}).Oracle(c, bad); v == "" {
+		t.Errorf("braces everywhere: accepted")
+	}
+	bad = append([]hist.Obs{}, got...)
+	bad[6].Out = "switch {\ncase x:\n\ta()\ncase x:\n\ta()\n}" // one clause lost
+	if v := (c20{}).Oracle(c, bad); v == "" {
+		t.Errorf("a clause lost in the switch of all three: accepted")
+	}
+	if v := (c20{}).Oracle(c, got[:6]); v == "" {
+		t.Errorf("a missing observation: accepted")
+	}
+}
+
+// c1 := o.Clone(); c2 := o.Clone().Op("-").Parens(c1); c2.Id("t"); c1.Id("u"); o.Id("v")
+func TestC20SnapSiblingOracle(t *testing.T) {
+	id := func(s string) c20sItem { return c20sId(s) }
+	op := func(s string) c20sItem { return c20sPlain(c20Item{Node: term.Op(s), Text: s}) }
+	all := []c20sOp{{Kind: "render", V: 0}, {Kind: "render", V: 1}, {Kind: "render", V: 2}}
+	ops := []c20sOp{{Kind: "new", V: 0}, {Kind: "append", V: 0, Items: []c20sItem{id("a"), op("+"), id("b")}},
+		{Kind: "clone", V: 1, From: 0}, {Kind: "clone", V: 2, From: 0},
+		{Kind: "append", V: 2, Items: []c20sItem{op("-"), {Group: "Parens", Kids: []c20sKid{{Ref: 1}}}}}}
+	ops = append(ops, all...)
+	ops = append(ops, c20sOp{Kind: "append", V: 2, Items: []c20sItem{op("*"), id("t")}})
+	ops = append(ops, all...)
+	ops = append(ops, c20sOp{Kind: "append", V: 1, Items: []c20sItem{op("/"), id("u")}})
+	ops = append(ops, all...)
+	ops = append(ops, c20sOp{Kind: "append", V: 0, Items: []c20sItem{op("%"), id("v")}})
+	ops = append(ops, all...)
+	c := c20sCase(ops, "test", nil)
+	got := ExecFresh(c.Hist)
+	if v := (c20{}).Oracle(c, got); v != "" {
+		t.Fatalf("rejected on the implementation: %s", v)
+	}
+	want := []string{"a + b", "a + b", "a + b - (a + b)",
+		"a + b", "a + b", "a + b - (a+b)*t",
+		"a + b", "a + b/u", "a + b - (a+b/u)*t",
+		"a + b%v", "a + b%v/u", "a + b%v - (a+b%v/u)*t"}
+	for i, w := range want {
+		if got[i].Kind != "write" || got[i].Out != w {
+			t.Errorf("observation %d: %s, want %q", i, got[i], w)
+		}
+	}
+	found := false
+	for _, x := range c.Tags {
+		found = found || x == "clone-inside-sibling"
+	}
+	if !found || !c.NonTrivial {
+		t.Errorf("tags %v nontrivial %v", c.Tags, c.NonTrivial)
+	}
+	for _, b := range []struct {
+		i   int
+		out string
+		why string
+	}{
+		{8, "a + b - (a+b)*t", "the clone inside the group does not show what was appended to it"},
+		{7, "a + b*t/u", "the sibling's token overwrote the clone's (shared backing array)"},
+		{6, "a + b/u", "an append to a clone reached the original"},
+		{5, "a + b - (a + b)", "tokens appended after the group are lost"},
+		{4, "a + b*t", "an append to one sibling reached the other"},
+		{11, "a + b%v - (a+b/u)*t", "the clone inside the group does not follow the original"},
+	} {
+		bad := append([]hist.Obs{}, got...)
+		bad[b.i].Out = b.out
+		if v := (c20{}).Oracle(c, bad); v == "" {
+			t.Errorf("%s: accepted", b.why)
+		}
+	}
+}
+
+// generated snapshot histories: accepted on the implementation, re-executable, every render has one rplain
+func TestC20SnapGeneratorConsistent(t *testing.T) {
+	r := rand.New(rand.NewSource(11))
+	for i, c := range c20sGenerate(r, "quick") {
+		if i%5 != 0 {
+			continue
+		}
+		line := c.Hist.Sexp()
+		got := ExecFresh(c.Hist)
+		if strings.Count(line, "(rplain ") != len(got) {
+			t.Fatalf("%d observations, line has %d renders", len(got), strings.Count(line, "(rplain "))
+		}
+		if v := (c20{}).Oracle(c, got); v != "" {
+			t.Fatalf("oracle fails on the implementation: %s\n%s", v, line)
+		}
+		again := ExecFresh(c.Hist)
+		for j := range got {
+			if !hist.SameObs(got[j], again[j]) {
+				t.Fatalf("re-execution differs at %d", j)
+			}
+		}
+	}
+}
